@@ -31,7 +31,7 @@ def instances(tier):
     quick = tier == "quick"
     b = dict(wall_s=75 if quick else 600, max_paths=2500 if quick else 30000)
     out = []
-    fams = ["euler", "rk4", "sympl_euler", "dopri45"] if quick else ["euler", "rk4", "midpoint", "sympl_euler", "abas5o6h", "dopri45", "heun_euler"]
+    fams = ["euler", "rk4", "sympl_euler", "dopri45", "heun_euler"] if quick else ["euler", "rk4", "midpoint", "sympl_euler", "abas5o6h", "dopri45", "heun_euler"]
     for fam in fams:
         n = (3 if quick else 4) if spans.FAMILIES[fam][2] == "fixed" else 2
         out.append(dict(id="pieces-%s-N%d" % (fam, n), family=fam, N=n, mode="pieces", budget=b))
